@@ -62,6 +62,14 @@ def seg_at(line, j):
     return Q.seq_get(line, j)
 
 
+def elem_is(line, j, tup):
+    """line[j] exists and is the segment `tup` (non-forking; a list of concrete length is compared position by position)."""
+    s = line.seq if isinstance(line, Q.LRef) else line
+    if isinstance(s, (tuple, list)):
+        return either(False, *[both(eq(j, k), V.struct_eq(s[k], tup)) for k in range(len(s))])
+    return both(0 <= j, j < Q.seq_len(s), V.struct_eq(Q.seq_get(s, j), tup))
+
+
 def colsum(line, k):
     """Sum of the columns of the first k segments of a line (prefix-sum model field of the list, component 0)."""
     if not V._current:
@@ -119,7 +127,7 @@ def _shift_ens(a, result, callee=False):
     k1 = ite(total != 0, 1, 0)
     yield "amount-is-an-int", isinstance(a.amount, (int, V.SInt))
     yield "columns-grow-by-exactly-the-amount", colsum(result, n_segs(result)) == colsum(old, n_segs(old)) + a.amount
-    yield "one-leading-shift-holding-the-total-shift-or-none-when-zero", implies(total != 0, both(n_segs(result) > 0, V.struct_eq(seg_at(result, 0), (total, None))))
+    yield "one-leading-shift-holding-the-total-shift-or-none-when-zero", implies(total != 0, elem_is(result, 0, (total, None)))
     yield "every-other-segment-kept-in-order", same_from(result, k1, old, k0, callee)
     yield "argument-not-modified", same_from(segs, 0, old, 0, callee)
 
@@ -135,3 +143,205 @@ class shift_line:
 
     def on_raise(a, exc):
         yield "only-for-a-non-int-amount", not isinstance(a.amount, (int, V.SInt))
+
+
+# ---- LayoutSegment
+
+from urwid import text_layout as _tl  # noqa: E402
+from pyvc.api import PROTOCOLS  # noqa: E402
+from pyvc.protocol import Protocol  # noqa: E402
+
+
+def _ins_nonempty(st, v):
+    """Truth value of an inserted text (a bytes object): non-empty -- an uninterpreted predicate of the individual."""
+    return mk_bool(z3.Function("InsText.nonempty", v.e.sort(), z3.BoolSort())(v.e))
+
+
+class _InsTextProtocol(Protocol):
+    """The third component of an inserted-text segment: some `bytes` object (the encoded ellipsis mark).  Opaque:
+    only its type (bytes) and its truth value (non-empty or not) are observed by the functions under contract."""
+    kind = "InsText"
+    methods = {}
+
+    def isinstance(self, ip, st, obj, cls):
+        return issubclass(bytes, cls)
+
+
+PROTOCOLS["InsText"] = _InsTextProtocol()
+INSTEXT = Opaque("InsText", truth=_ins_nonempty)
+INS = Tup(Int, Int, INSTEXT)
+SEG3 = Union(PAD, RUN, INS)
+LINE3 = ListOf(SEG3)
+
+LSEG = Obj(_tl.LayoutSegment, dict(sc=Int, offs=Opt(Int), text=Opt(INSTEXT), end=Opt(Int)))
+
+# what is not a segment: representatives of each way of being malformed (1.5: "not an int", None: "not a tuple")
+BAD_SEGS = (Const(None), Tup(Int), Tup(Int, Int, Int, Int), Tup(Const(1.5), Opt(Int)), Tup(Const(1.5), Int, Int),
+            Tup(Int, Const(1.5)), Tup(Int, Const(1.5), Int), Tup(Int, Opt(Int), Int), Tup(Int, Int, Const(1.5)), Tup(Int, Int, Const(None)))
+
+
+def _isint(x):
+    return isinstance(x, (int, V.SInt)) and not isinstance(x, V.SBool)
+
+
+def _isint_f(x):
+    """`isinstance(x, int)` as a formula for an optional int / a constant."""
+    if isinstance(x, V.SOpt):
+        return neg(mk_bool(x.isnone))
+    return _isint(x)
+
+
+def _isnone_f(x):
+    return opt_isnone(x) if isinstance(x, V.SOpt) else x is None
+
+
+def seg_errors(seg):
+    """(type_error, value_error): formulas saying that `seg` is not a segment structure because of a component of
+    the wrong type / of a wrong value.  Segment structures: (cols, offs | None) with cols >= 0 unless offs is None;
+    (cols > 0, offs, end_offs); (cols > 0, offs, bytes).  Where both kinds of defect are present the constructor
+    reports the one it meets first (arity, type of cols, then per arity: type of offs, value of cols, type of the
+    third component) -- the order is the code's, the set of malformed values is the documentation's."""
+    if not isinstance(seg, tuple):
+        return True, False
+    if len(seg) not in (2, 3):
+        return False, True
+    sc, offs = seg[0], seg[1]
+    if not _isint(sc):
+        return True, False
+    if len(seg) == 3:
+        t = seg[2]
+        t_ok = _isint(t) or (isinstance(t, V.SOpaque) and t.kind == "InsText") or isinstance(t, bytes)
+        oi = _isint_f(offs)
+        return either(neg(oi), both(oi, sc > 0, not t_ok)), both(oi, sc <= 0)
+    isn = _isnone_f(offs)
+    return both(neg(isn), sc >= 0, neg(_isint_f(offs))), both(neg(isn), sc < 0)
+
+
+def _lseg_ens(old, s, a, result):
+    seg = a.seg
+    te, ve = seg_errors(seg)
+    yield "only-a-segment-structure-is-accepted", both(neg(te), neg(ve))
+    if not isinstance(seg, tuple) or len(seg) not in (2, 3):
+        return
+    yield "columns-and-offset-are-the-segments", both(eq(s.sc, seg[0]), opt_eq(s.offs, seg[1]))
+    if len(seg) == 3:
+        t = seg[2]
+        yield "shown-segments-have-columns", s.sc > 0
+        if _isint(t):
+            yield "text-run-keeps-its-end-and-has-no-inserted-text", both(opt_eq(s.end, t), _isnone_f(s.text))
+        else:
+            yield "inserted-text-kept-and-no-end", both(opt_eq(s.text, t), _isnone_f(s.end))
+    else:
+        yield "padding-has-neither-end-nor-inserted-text", both(_isnone_f(s.end), _isnone_f(s.text))
+        yield "padding-with-an-offset-is-not-negative", implies(neg(_isnone_f(s.offs)), s.sc >= 0)
+
+
+def _lseg_ens_callee(old, s, a, result):
+    a = View(dict(a._d, seg=cur().force(a.seg)))  # at a call site the segment is an element of a line: split by variant
+    yield from _lseg_ens(old, s, a, result)
+
+
+def _lseg_raises(exc_cls):
+    def cond(s, a):
+        seg = cur().force(a.seg) if V._current else a.seg
+        te, ve = seg_errors(seg)
+        return te if exc_cls is TypeError else ve
+    return cond
+
+
+@contract(TL + "LayoutSegment.__init__", property="C03", replayable=False)
+class layout_segment_init:
+    self_shape = LSEG
+    constructs = LSEG
+    ctor_params = ("seg",)
+    params = dict(seg=Union(PAD, RUN, INS, *BAD_SEGS))
+    raises = (TypeError, ValueError)
+    raises_iff = {TypeError: _lseg_raises(TypeError), ValueError: _lseg_raises(ValueError)}
+    modifies = ("sc", "offs", "text", "end")
+    ensures = staticmethod(_lseg_ens)
+    ensures_callee = staticmethod(_lseg_ens_callee)
+
+    def on_raise(old, s, a, exc):
+        te, ve = seg_errors(a.seg)
+        if exc.cls is TypeError:
+            yield "type-error-only-for-a-component-of-the-wrong-type", te
+        else:
+            yield "value-error-only-for-a-wrong-arity-or-column-count", ve
+
+
+from contracts.C11_width import W, tlen  # noqa: E402  (the abstract text model: W(t, k) = columns of the first k characters)
+
+TEXT = Text("str")
+
+
+def run_ok(text, sc, offs, end):
+    """A text run (sc, offs, end) of `text`: a slice of the text whose column count is the width of its characters."""
+    return both(0 <= offs, offs <= end, end <= tlen(text), sc == W(text, end) - W(text, offs))
+
+
+def lseg_wf(s, text):
+    """The LayoutSegment object describes a segment of a line laid out for `text` (what the constructor accepts,
+    plus: a run lies within the text and its columns are the width of its characters)."""
+    is_run = neg(_isnone_f(s.end))
+    offs_none = _isnone_f(s.offs)
+    return both(
+        implies(is_run, both(neg(offs_none), s.sc > 0, run_ok(text, s.sc, val(s.offs), val(s.end)))),
+        implies(both(neg(is_run), neg(offs_none)), s.sc >= 0))
+
+
+def _subseg_witness(callee):
+    st = cur()
+    if callee:
+        return tuple(st.fresh_int(n) for n in ("spos", "epos", "pad_left", "pad_right"))
+    loc = st.ghost.get("exit_locals", {})
+    if "spos" not in loc:
+        return None
+    return loc["spos"], loc["epos"], loc["pad_left"], loc["pad_right"]
+
+
+def _subseg_ens(old, s, a, result, callee=False):
+    t = a.text
+    s0, e0 = imax(a.start, 0), imin(a.end, old.sc)     # the requested column range, clamped to the segment
+    n = n_segs(result)
+    yield "no-columns-left-gives-no-segments", implies(s0 >= e0, n == 0)
+    yield "columns-are-exactly-the-clamped-range", implies(s0 < e0, colsum(result, n) == e0 - s0)
+    is_run = neg(_isnone_f(old.end))
+    yield "padding-is-cut-to-the-range-and-keeps-its-offset", implies(both(s0 < e0, neg(is_run)),
+                                                                     both(n == 1, elem_is(result, 0, (e0 - s0, old.offs))))
+    if callee or bool(both(s0 < e0, is_run)):
+        # there are offsets spos <= epos and pad flags such that ... (witnesses: the function's own locals)
+        wit = _subseg_witness(callee)
+        if wit is None:
+            yield "run-is-cut-at-character-boundaries", False
+            return
+        spos, epos, pl, pr = wit
+        offs, end = val(old.offs), val(old.end)
+        mid = e0 - s0 - pl - pr
+        r = ite(mid > 0, 1, 0)
+        yield "run-is-cut-at-character-boundaries", implies(both(s0 < e0, is_run), both(
+            either(pl == 0, pl == 1), either(pr == 0, pr == 1), offs <= spos, spos <= epos, epos <= end,
+            # the kept characters start at the first boundary at or after column s0 and end at the last one at or before
+            # e0; a double-width character lying across an edge is replaced by one column of padding
+            W(t, spos) - W(t, offs) == s0 + pl, W(t, epos) - W(t, offs) == e0 - pr))
+        yield "result-is-left-pad-kept-run-right-pad", implies(both(s0 < e0, is_run), both(
+            n == pl + r + pr,
+            implies(pl == 1, elem_is(result, 0, (1, spos - 1))),
+            implies(r == 1, elem_is(result, pl, (mid, spos, epos))),
+            implies(pr == 1, elem_is(result, pl + r, (1, epos)))))
+        yield "kept-run-is-a-run-of-the-text", implies(both(s0 < e0, is_run, r == 1), run_ok(t, mid, spos, epos))
+
+
+@contract(TL + "LayoutSegment.subseg", property="C03", replayable=False)
+class layout_segment_subseg:
+    self_shape = LSEG
+    params = dict(text=TEXT, start=Int, end=Int)
+    result = LINE
+    raises = ()
+    modifies = ()
+    ensures = staticmethod(_subseg_ens)
+    ensures_callee = staticmethod(lambda old, s, a, result: _subseg_ens(old, s, a, result, True))
+
+    def requires(s, a):
+        # inserted-text segments (cols, offs, bytes) are not covered: their bytes are cut by calc_trim_text, which is
+        # under contract for str texts only (contracts/C11_width.py)
+        return both(_isnone_f(s.text), lseg_wf(s, a.text))
